@@ -617,6 +617,10 @@ fn normalise(ops: Vec<Op>) -> Vec<Op> {
 }
 
 pub fn generate(seed: u64, tier: &str, sink: &mut Sink) {
+    // real handshakes: flags set on a sibling request and on a clone of a session that has already made a
+    // request must not reach the session's next request (the TLS layer may keep state of its own; seed C16-seed10).
+    // The rows are C14's.
+    crate::p_c14::generate_siblings(seed, tier, sink);
     let mut rng = Rng::new(seed ^ 0xC16);
     let n = if tier == "thorough" { 60_000 } else { 4000 };
     for case_i in 0..n {
